@@ -72,7 +72,12 @@ def main():
         for m in mc.build_mutants(p, maxpp, seed):
             if (m["pid"], m["file"].split("/")[-1], m["line"], m["func"], m["desc"]) in surv:
                 muts.append(m)
-    print(f"{len(surv)} survivors in the log, {len(muts)} rebuilt", flush=True)
+    # changes of diagnostics only (log records, warnings, prints, verbosity, memory estimates, f-string messages) touch no
+    # property: recorded as `diagnostics-only`, not run
+    NOISE = re.compile(r"logger\.record|warnings\.warn|^print\(|verbose|^f[\"']|total_memory_usage|_maybe_recommend_cpu|progress_bar|print_system_info|tqdm\.write|^assert .*, [\"']")
+    noise = [m for m in muts if NOISE.search(m["stmt"])]
+    muts = [m for m in muts if not NOISE.search(m["stmt"])]
+    print(f"{len(surv)} survivors in the log, {len(muts)} to run, {len(noise)} diagnostics-only", flush=True)
     shutil.rmtree(ROOT, ignore_errors=True)
     free = []
     for k in range(workers):
@@ -135,6 +140,9 @@ def main():
             old[pid] = {"seed": seed, "tier": "quick", "ops": os.environ.get("MC_OPS", "v2"), "summary": {}, "mutants": rs}
     key = lambda r: (r["pid"], r["file"], r["func"], r["line"], r["desc"])  # noqa: E731
     tri_by = {key(r): r for r in tri}
+    for m in noise:
+        r = {k: m[k] for k in ("pid", "file", "func", "line", "desc", "stmt")}
+        tri_by[key(r)] = dict(r, tests="diagnostics-only")
     for pid, d in old.items():
         d["mutants"] = [dict(r, **{k: v for k, v in tri_by[key(r)].items() if k.startswith("tests")}) if key(r) in tri_by else r for r in d["mutants"]]
         summ = {}
